@@ -252,7 +252,7 @@ func genExifInputs(c *Ctx, n int) []epInput {
 		lo := layoutOpt{shuffleEntries: c.Rng.Intn(2) == 0, foreign: c.Rng.Intn(3), pad: []int{0, 1, 7}[c.Rng.Intn(3)], headerPad: []int{0, 0, 18}[c.Rng.Intn(3)], entryOrderVals: c.Rng.Intn(2) == 0,
 			ifd1: c.Rng.Intn(4) == 0, slotJunk: c.Rng.Intn(3) == 0, isoPair: c.Rng.Intn(3) == 0, zeroDen: i%4 == 3}
 		if i%16 == 5 {
-			lo.foreign, lo.valuesFirst, lo.entryOrderVals = 45, true, true
+			lo.foreign, lo.valuesFirst, lo.entryOrderVals, lo.depthFirst = 45, true, true, true
 		}
 		t := buildTIFF(c, r, c.Rng.Intn(2) == 0, lo)
 		out = append(out, epInput{fmt.Sprintf("gen/tiff%d.tif", i), t, "gen"})
